@@ -835,7 +835,7 @@ func (c *Connection) updateLastActivityWrite(frame *Frame) {
 
 // hasPendingCalls returns whether there's any pending inbound or outbound calls on this connection.
 func (c *Connection) hasPendingCalls() bool {
-	if c.inbound.count() > 0 || c.outbound.count() > 0 {
+	if c.inbound.countCalls() > 0 || c.outbound.countCalls() > 0 {
 		return true
 	}
 	if !c.relay.canClose() {
